@@ -37,6 +37,9 @@ Nested == { <<"nested-from", <<[m |-> "from_", src |-> "Q6"], [m |-> "select", t
             <<"having-or", <<From, Sel, [m |-> "groupby", terms |-> <<Fld("T1", "a")>>],
                              [m |-> "having", crit |-> [k |-> "bin", op |-> "OR", l |-> Gt([k |-> "call", f |-> "SUM", args |-> <<Fld("T1", "b")>>], Num("1")), r |-> Cmp(Fld("T1", "a"), Num("2"))]]>> >>,
             <<"distinct", <<From, Sel, [m |-> "distinct"]>> >>,
+            \* a SELECT without a FROM of its own over another statement's columns (a correlated scalar expression)
+            <<"fromless", <<[m |-> "select", terms |-> <<WithAl([k |-> "bin", op |-> "+", l |-> Fld("T1", "a"), r |-> Num("1")], "ala"), Fld("T1", "b")>>]>> >>,
+            <<"fromless-one", <<[m |-> "select", terms |-> <<Fld("T2", "b")>>]>> >>,
             \* the clause only the dialect's own builder class has (MySQL modifiers, PostgreSQL DISTINCT ON, MSSQL TOP), index hints / FOR UPDATE / WITH TOTALS
             <<"dialect-own", <<From, Sel, [m |-> "dialect_own"]>> >>,
             <<"hints", <<From, Sel, [m |-> "hints"]>> >>,
